@@ -725,8 +725,10 @@ impl<'a> Lock<'a> {
         if a.zkey != snap.zkey {
             return format!("position key: now {} before {}", a.zkey, snap.zkey);
         }
-        let ka = a.verif_position_keys();
-        let ks = snap.verif_position_keys();
+        let mut ka: Vec<u64> = a.verif_position_keys().iter().map(|k| key_u64(*k)).collect();
+        let mut ks: Vec<u64> = snap.verif_position_keys().iter().map(|k| key_u64(*k)).collect();
+        ka.sort_unstable();
+        ks.sort_unstable();
         if ka != ks {
             return format!("record of earlier positions: now {} entries, before {}", ka.len(), ks.len());
         }
